@@ -53,14 +53,24 @@ impl EntryT {
 
 /// the disk tier. `enqueue` is the ONLY way an entry starts its way to the device. Its precondition is property C12's
 /// first sentence: an entry advised in-memory-only never reaches the disk.
-pub struct StoreT { pub enabled: bool, pub enqueued: Ghost<Seq<PieceT>>, pub closes: Ghost<nat>, pub waits: Ghost<nat> }
+pub struct StoreT { pub enabled: bool, pub enqueued: Ghost<Seq<PieceT>>, pub closes: Ghost<nat>, pub waits: Ghost<nat>,
+    /// for every wait so far: how many pieces had been enqueued when the write queue was waited for (drained)
+    pub drains: Ghost<Seq<nat>> }
 impl StoreT {
     #[verifier::external_body]
     pub fn enqueue(&mut self, piece: PieceT, force: bool)
         requires piece.props.location != Location::InMem, // @label in_memory_only_entry_is_never_enqueued_to_disk
         ensures final(self).enqueued@ == old(self).enqueued@.push(piece), final(self).enabled == old(self).enabled,
-            final(self).closes@ == old(self).closes@, final(self).waits@ == old(self).waits@,
+            final(self).closes@ == old(self).closes@, final(self).waits@ == old(self).waits@, final(self).drains == old(self).drains,
     { }
+    /// `store.wait().await`: returns when everything enqueued so far has been written
+    #[verifier::external_body]
+    pub fn wait(&mut self)
+        ensures final(self).waits@ == old(self).waits@ + 1, final(self).drains@ == old(self).drains@.push(old(self).enqueued@.len()), final(self).enqueued == old(self).enqueued,
+            final(self).enabled == old(self).enabled, final(self).closes == old(self).closes,
+    { }
+    #[verifier::external_body]
+    pub fn device(&self) -> DeviceT { unimplemented!() }
     #[verifier::external_body]
     pub fn is_enabled(&self) -> (b: bool) ensures b == self.enabled { unimplemented!() }
     #[verifier::external_body]
@@ -124,6 +134,10 @@ impl Instant {
 impl Duration {
     #[verifier::external_body] pub fn is_zero(&self) -> bool { unimplemented!() }
 }
+pub struct DeviceT { }
+/// `device.statistics().throttle().write_throughput.map(|v| RateLimiter::new(v.get() as _))`
+#[verifier::external_body]
+pub fn verif_throttler(d: &DeviceT) -> Option<RateLimiter> { unimplemented!() }
 pub struct RateLimiter { pub r: u64 }
 impl RateLimiter {
     #[verifier::external_body] pub fn consume(&self, weight: usize) -> Duration { unimplemented!() }
@@ -159,14 +173,18 @@ pub proof fn lemma_on_disk_push(p: Seq<PieceT>, x: PieceT)
 {
     assert(p.push(x).drop_last() =~= p);
 }
-//@region foyer/src/hybrid/cache.rs :: impl~Pipe for HybridCachePipe/fn flush name=pipe_flush start=/for piece in pieces \{/ stmts=1 rules=de-async sub=@bytes as _@bytes@ sub=@tokio::time::sleep\(wait\)@verif_sleep(wait)@
+//@region foyer/src/hybrid/cache.rs :: impl~Pipe for HybridCachePipe/fn flush name=pipe_flush start=/let store = self\.store\.clone\(\);/ body=1 rules=de-async sub=@bytes as _@bytes@ sub=@tokio::time::sleep\(wait\)@verif_sleep(wait)@ sub=@(?s)let throttler = .*?;@let throttler = verif_throttler(&device);@
 //@head
-fn pipe_flush(store: &mut StoreT, throttler: Option<RateLimiter>, pieces: Vec<PieceT>)
+fn pipe_flush(store: &mut StoreT, pieces: Vec<PieceT>)
     ensures
         final(store).enqueued@ == old(store).enqueued@ + on_disk_pieces(pieces@), // @label flush_writes_every_resident_entry_once_except_in_memory_only
+        // the write queue is drained BEFORE the resident set is enqueued (the close-time burst must meet an empty queue: the
+        // engine sheds writes beyond its queue threshold), not merely afterwards
+        exists|i: int| old(store).drains@.len() <= i < final(store).drains@.len() && #[trigger] final(store).drains@[i] == old(store).enqueued@.len(), // @label write_queue_is_drained_before_the_resident_set_is_enqueued
 //@loop 1 iter=it
                 invariant
                     store.enqueued@ == old(store).enqueued@ + on_disk_pieces(pieces@.subrange(0, it.index@ as int)),
+                    store.drains@.len() > old(store).drains@.len(), store.drains@[old(store).drains@.len() as int] == old(store).enqueued@.len(),
 //@before /\/\/ Entries advised in-memory-only never reach the disk cache/
                 proof {
                     assert(pieces@.subrange(0, it.index@ + 1) =~= pieces@.subrange(0, it.index@ as int).push(piece));
